@@ -177,7 +177,9 @@ Verdict ==
             ELSE <<cs.family, "final", "plain-move", st.c, s.k, d.k>>
   ELSE IF AtEnd /\ StrayStores(m, cs) # {}
        THEN LET ss == {q \in Wanted(cs) : cs.dst[q].k = "stack"}
-                cls == IF \E q \in ss : SrcTy(cs, q).c # "int" THEN (SrcTy(cs, CHOOSE q \in ss : SrcTy(cs, q).c # "int").c) ELSE "int"
+                \* the class names the kind of source whose store can overrun: scalar fp first (the listed movaps/movapd defect)
+                cls == IF \E q \in ss : SrcTy(cs, q).c = "fp" THEN "fp"
+                       ELSE IF \E q \in ss : SrcTy(cs, q).c # "int" THEN (SrcTy(cs, CHOOSE q \in ss : SrcTy(cs, q).c # "int").c) ELSE "int"
             IN <<cs.family, "store-outside-destination", cls>>
   ELSE IF AtEnd /\ ~SaOk(m, cs) THEN <<cs.family, "sa-register">>
   ELSE <<>>
